@@ -82,6 +82,21 @@ class Obl:
         self.clause = clause      # the spec text this obligation comes from
 
 
+class SeenSet(set):
+    """Keys of definitional facts already assumed on a path.  A fact assumed while a comprehension binder or a
+    guard is active is only known UNDER that binder / guard, so it must not be recorded as generally known
+    (it would never be stated unconditionally afterwards)."""
+
+    def __init__(self, owner, items=()):
+        set.__init__(self, items)
+        self.owner = owner
+
+    def add(self, key):
+        if self.owner.binders or self.owner.guards:
+            return
+        set.add(self, key)
+
+
 class State:
     def __init__(self):
         self.env = {}
@@ -92,7 +107,7 @@ class State:
         self.pending_exc = []  # (cond z3, exc name) collected while evaluating a statement's expressions
         self.path = []        # human-readable branch decisions
         self.spec = False
-        self.seen = set()     # definitional facts already assumed on this path (term-id keyed)
+        self.seen = SeenSet(self)     # definitional facts already assumed on this path (term-id keyed)
         self.memo = {}        # pure array operations already evaluated on this path: key -> result
 
     def fork(self):
@@ -106,7 +121,7 @@ class State:
         s.path = list(self.path)
         s.spec = self.spec
         s.witness = getattr(self, "witness", {})
-        s.seen = set(self.seen)
+        s.seen = SeenSet(s, self.seen)
         s.memo = dict(self.memo)
         if hasattr(self, "join_terms"):
             s.join_terms = list(self.join_terms)
@@ -953,7 +968,7 @@ class Exec:
         for h in s2.hyps[before:]:
             st.hyps.append(h)
         st.memo.update(s2.memo)
-        st.seen |= s2.seen
+        set.update(st.seen, s2.seen)
         if hasattr(s2, "join_terms"):
             st.join_terms = list(s2.join_terms)
         return self.truth(v)
@@ -1006,7 +1021,7 @@ class Exec:
             for h in s2.hyps[len(st.hyps):]:
                 st.hyps.append(h)
             st.memo.update(s2.memo)
-            st.seen |= s2.seen
+            set.update(st.seen, s2.seen)
             if hasattr(s2, "join_terms"):
                 st.join_terms = list(s2.join_terms)
             st.env[name.strip()] = v
